@@ -31,24 +31,35 @@ macro_rules! each {
     };
 }
 
+thread_local! {
+    /// How the setters, reset and the getters are called: TRUE = through the `Resampler` trait (what generic
+    /// code bounded by the trait resolves to), FALSE = method syntax on the concrete type (an inherent method
+    /// of the same name would win). Both must be the same thing; the driver alternates per script line.
+    pub static VIA_TRAIT: std::cell::Cell<bool> = const { std::cell::Cell::new(false) };
+}
+
+fn via_trait() -> bool {
+    VIA_TRAIT.with(|c| c.get())
+}
+
 impl<T: Smp> AnyRes<T> {
     pub fn in_next(&self) -> usize {
-        each!(self, r => r.input_frames_next())
+        if via_trait() { each!(self, r => rubato::Resampler::<T>::input_frames_next(r)) } else { each!(self, r => r.input_frames_next()) }
     }
     pub fn in_max(&self) -> usize {
-        each!(self, r => r.input_frames_max())
+        if via_trait() { each!(self, r => rubato::Resampler::<T>::input_frames_max(r)) } else { each!(self, r => r.input_frames_max()) }
     }
     pub fn out_next(&self) -> usize {
-        each!(self, r => r.output_frames_next())
+        if via_trait() { each!(self, r => rubato::Resampler::<T>::output_frames_next(r)) } else { each!(self, r => r.output_frames_next()) }
     }
     pub fn out_max(&self) -> usize {
-        each!(self, r => r.output_frames_max())
+        if via_trait() { each!(self, r => rubato::Resampler::<T>::output_frames_max(r)) } else { each!(self, r => r.output_frames_max()) }
     }
     pub fn delay(&self) -> usize {
-        each!(self, r => r.output_delay())
+        if via_trait() { each!(self, r => rubato::Resampler::<T>::output_delay(r)) } else { each!(self, r => r.output_delay()) }
     }
     pub fn channels(&self) -> usize {
-        each!(self, r => r.nbr_channels())
+        if via_trait() { each!(self, r => rubato::Resampler::<T>::nbr_channels(r)) } else { each!(self, r => r.nbr_channels()) }
     }
     pub fn vstate(&self) -> VerifState {
         each!(self, r => r.verif_state())
@@ -89,22 +100,22 @@ impl<T: Smp> AnyRes<T> {
         each!(self, r => r.process_partial(i, m))
     }
     pub fn set_ratio(&mut self, x: f64, ramp: bool) -> ResampleResult<()> {
-        each!(self, r => r.set_resample_ratio(x, ramp))
+        if via_trait() { each!(self, r => rubato::Resampler::<T>::set_resample_ratio(r, x, ramp)) } else { each!(self, r => r.set_resample_ratio(x, ramp)) }
     }
     pub fn set_ratio_rel(&mut self, x: f64, ramp: bool) -> ResampleResult<()> {
-        each!(self, r => r.set_resample_ratio_relative(x, ramp))
+        if via_trait() { each!(self, r => rubato::Resampler::<T>::set_resample_ratio_relative(r, x, ramp)) } else { each!(self, r => r.set_resample_ratio_relative(x, ramp)) }
     }
     pub fn set_chunk(&mut self, n: usize) -> ResampleResult<()> {
-        each!(self, r => r.set_chunk_size(n))
+        if via_trait() { each!(self, r => rubato::Resampler::<T>::set_chunk_size(r, n)) } else { each!(self, r => r.set_chunk_size(n)) }
     }
     pub fn reset(&mut self) {
-        each!(self, r => r.reset())
+        if via_trait() { each!(self, r => rubato::Resampler::<T>::reset(r)) } else { each!(self, r => r.reset()) }
     }
     pub fn in_alloc(&self, filled: bool) -> Vec<Vec<T>> {
-        each!(self, r => r.input_buffer_allocate(filled))
+        if via_trait() { each!(self, r => rubato::Resampler::<T>::input_buffer_allocate(r, filled)) } else { each!(self, r => r.input_buffer_allocate(filled)) }
     }
     pub fn out_alloc(&self, filled: bool) -> Vec<Vec<T>> {
-        each!(self, r => r.output_buffer_allocate(filled))
+        if via_trait() { each!(self, r => rubato::Resampler::<T>::output_buffer_allocate(r, filled)) } else { each!(self, r => r.output_buffer_allocate(filled)) }
     }
     pub fn as_vec(&mut self) -> &mut dyn rubato::VecResampler<T> {
         each!(self, r => r as &mut dyn rubato::VecResampler<T>)
